@@ -509,7 +509,8 @@ Inductive op :=
 | LoadFn        (* pyflyby.load_ipython_extension(ip) called directly *)
 | UnloadFn      (* pyflyby.unload_ipython_extension(ip) called directly *)
 | Initialize    (* app.initialize(argv): [IPython] creates the shell through app.init_shell() *)
-| AddImport (id : N).   (* pyflyby.add_import(name, code): registers a name in the session-local database *)
+| AddImport (id : N)    (* pyflyby.add_import(name, code): registers a name in the session-local database *)
+| UserFileOp.          (* the user edits a file (breaks / repairs an import database file): nothing of the importer changes *)
 
 (*  load_ipython_extension: auto_importer.enable(even_if_previously_errored=True); cache clears; debug tools
     unload_ipython_extension: auto_importer.disable(); remove_comms()                       *)
@@ -563,6 +564,7 @@ Definition step (sh : shell) (o : op) : shell :=
   | AddImport id =>
       if at_ then mkShell (set_registered (id :: registered s) s) ld None at_
       else mkShell s ld (Some (EExc cls_ValueError)) at_
+  | UserFileOp => mkShell s ld None at_
   end.
 
 Definition run (ops : list op) (sh : shell) : shell := fold_left step ops sh.
